@@ -274,6 +274,13 @@ fn build(cfg: &Config) -> Result<Built, String> {
         let p = exec::block_on(w.create_proof(Some(RequestBlock { index: i, nodes: n }), None, None, None)).map_err(|e| e.to_string())?.ok_or("no proof")?;
         proofs.push(p);
     }
+    // further proofs fetched against the still-empty replica: upgrade together with a block that is
+    // not the first one (indices l.. of the proof list); which of the competing upgrade proofs
+    // wins depends on the order, the data must be right in every order
+    for b in [l - 1, l / 2] {
+        let p = exec::block_on(w.create_proof(Some(RequestBlock { index: b, nodes: 0 }), None, None, Some(RequestUpgrade { start: 0, length: l }))).map_err(|e| e.to_string())?.ok_or("no proof")?;
+        proofs.push(p);
+    }
     let _ = &mut rep;
     Ok(Built { core: rep, world, proofs })
 }
@@ -478,6 +485,28 @@ fn closed_form(cfg: &Config, out: &mut RunOut) -> Result<(), (String, String)> {
         return Err(("call-never-returned".into(), format!("{:?}", recs.iter().find(|r| r.result.is_none()))));
     }
     if cfg.replica {
+        // whatever order the proofs were applied in: every block the replica ends up holding is
+        // the writer's block, reads do not fail, the contiguous length is the first missing index
+        if let Some(core) = out.final_core.as_mut() {
+            let info = core.info();
+            let mut first_missing = None;
+            for i in 0..info.length {
+                let held = core.has(i);
+                match exec::call(core.get(i)) {
+                    Ok(Ok(Some(b))) if held && b == prelude_block(i as u32) => {}
+                    Ok(Ok(None)) if !held => {
+                        if first_missing.is_none() {
+                            first_missing = Some(i);
+                        }
+                    }
+                    other => return Err(("replica-block-wrong-after-concurrent-proofs".into(), format!("block {i} (has = {held}): {:?}", other.map(|x| x.map(|y| y.map(|z| z.len())).map_err(|e| e.to_string()))))),
+                }
+            }
+            let fm = first_missing.unwrap_or(info.length);
+            if info.contiguous_length != fm {
+                return Err(("replica-contiguous-wrong-after-concurrent-proofs".into(), format!("contiguous_length {} but the first block not held is {fm}", info.contiguous_length)));
+            }
+        }
         return Ok(());
     }
     // append outcomes: distinct, gap-free increasing lengths, byte lengths the running sum
@@ -722,7 +751,7 @@ fn dfs_config(id: u64) -> Config {
         11 => rp(vec![vec![Call::Apply(0), Call::Apply(2)], vec![Call::Apply(1), Call::Get(1)]]),
         12 => rp(vec![vec![Call::Apply(0)], vec![Call::Info], vec![Call::Get(0)]]),
         13 => rp(vec![vec![Call::Apply(0), Call::Has(0)], vec![Call::MissingNodes(2), Call::Apply(3)]]),
-        14 => rp(vec![vec![Call::Apply(0)], vec![Call::Apply(0)], vec![Call::Apply(2)]]),
+        14 => rp(vec![vec![Call::Apply(0)], vec![Call::Apply(4)], vec![Call::Apply(5)]]),
         15 => w(vec![vec![a(1), Call::Has(2)], vec![a(2), Call::Has(3)]]),
         16 => w(vec![vec![a(1)], vec![a(2)], vec![a(3)]]),
         17 => w(vec![vec![Call::Batch(vec![(1, 3), (2, 3)]), Call::Info], vec![Call::Batch(vec![(3, 3), (4, 3)]), Call::Info]]),
@@ -730,7 +759,7 @@ fn dfs_config(id: u64) -> Config {
         19 => rp(vec![vec![Call::Apply(0), Call::Info], vec![Call::Get(0), Call::Get(0)]]),
         20 => w(vec![vec![a(1), a(2)], vec![Call::Info, Call::Info]]),
         21 => w(vec![vec![Call::CreateProof(None, Some((0, 2)))], vec![a(1)], vec![Call::Clear(1, 2)]]),
-        22 => rp(vec![vec![Call::Apply(0), Call::Apply(1)], vec![Call::Apply(0), Call::Apply(3)]]),
+        22 => rp(vec![vec![Call::Apply(4), Call::Info], vec![Call::Apply(0), Call::Apply(5)]]),
         _ => w(vec![vec![a(1), Call::Get(3)], vec![a(2), Call::Get(2)]]),
     }
 }
@@ -751,7 +780,7 @@ fn run_case(ctx: &mut Ctx, id: u64) {
     let mut tasks = vec![];
     for _ in 0..ntasks {
         let nc = 1 + r.below(4) as usize;
-        tasks.push((0..nc).map(|_| random_call(&mut r, prelude as u64 + 2, &mut tag, replica, prelude as usize)).collect());
+        tasks.push((0..nc).map(|_| random_call(&mut r, prelude as u64 + 2, &mut tag, replica, prelude as usize + 2)).collect());
     }
     let cfg = Config { replica, key_seed: r.next_u64(), prelude, replica_upgraded: 0, tasks };
     count_calls(ctx, &cfg);
